@@ -34,8 +34,11 @@ pub const T0: u64 = 1_693_264_335_000;
 pub fn web3_alphabets() -> Vec<(W, Vec<W>)> {
     vec![
         (ws("aa"), vec![ws("a`"), ws("aa"), ws("ab"), ws(""), ws("aaa")]),
-        (wn(137), vec![wn(136), wn(137), wn(138), wn(0), wn(u64::MAX)]),
-        (wt(T0), vec![wt(T0 - 1), wt(T0), wt(T0 + 1), wn(T0)]),
+        // the numeric variants embed alike (Timestamp(ms) as Numeric(ms)): a statement may mix them, and
+        // its truth is that of the embedded values - the first three entries (the quick tier's bounds)
+        // put the other variant on both sides of the value
+        (wn(T0 + 137), vec![wt(T0 + 136), wn(T0 + 137), wt(T0 + 138), wn(T0 + 136), wn(T0 + 138), wn(0), wn(u64::MAX)]),
+        (wt(T0), vec![wn(T0 - 1), wt(T0), wn(T0 + 1), wt(T0 - 1), wt(T0 + 1), wn(T0)]),
         // String("") and Numeric(0) embed to the same field element
         (wn(0), vec![wn(2), wn(0), wn(1), ws("")]),
         (wn(u64::MAX), vec![wn(u64::MAX - 1), wn(u64::MAX), ws("\u{0}")]),
